@@ -217,8 +217,12 @@ class RefCalc:
                 return self.ev(args[1])
             return self.ev(args[2]) if len(args) > 2 else False
         if fn == 'IFS':
+            cs = [self.truth(self.ev(args[i]))
+                  for i in range(0, len(args) - 1, 2)]
+            if any(c is INDET for c in cs):
+                return INDET   # every condition is consumed
             for i in range(0, len(args) - 1, 2):
-                c = self.truth(self.ev(args[i]))
+                c = cs[i // 2]
                 if c is INDET or c is E:
                     return c
                 if c:
